@@ -171,12 +171,13 @@ Definition top_chunks (src : str) (toks : list word) : M (option (str * list (bo
     Ok (Some (sub src 0 (hd 0 ps), combine fs (cuts src ps)))
   end.
 
-(* ---- SourceEx with format.Source as a parameter (None = error) ---- *)
+(* ---- SourceEx(src, class) with format.Source as a parameter: Source src class, None = error.
+   Both attempts pass the caller's class flag. ---- *)
 Section SourceEx.
-  Variable Source : str -> option str.
-  Definition source_ex (src : str) (toks : list word) : M (option str) :=
-    match Source src with
+  Variable Source : str -> bool -> option str.
+  Definition source_ex (src : str) (class : bool) (toks : list word) : M (option str) :=
+    match Source src class with
     | Some f => Ok (Some f)
-    | None => r <- rearrange src toks ;; Ok (Source r)
+    | None => r <- rearrange src toks ;; Ok (Source r class)
     end.
 End SourceEx.
